@@ -376,6 +376,11 @@ func runC08(s *kernel.Sim, enumerate bool) {
 		old["flows/f1.yaml"] += strings.Repeat("# "+strings.Repeat("padding ", 15)+"\n", 11000)
 		s.Knobs["large_file"] = true
 	}
+	// one sampled run in six: a configuration file in a sub-directory of the flows directory
+	if !enumerate && len(old) > 0 && tp.Chance(1, 6) {
+		old["flows/team-a/f4.yaml"] = probeFlow("f4", "a.com/p6", 416)
+		s.Knobs["nested_file"] = true
+	}
 	// one sampled run in six: a configuration file that exists and is empty
 	if !enumerate && len(old) > 0 && tp.Chance(1, 6) {
 		old["gateway_config.yaml"] = ""
